@@ -9,7 +9,7 @@ Verifies an independently written property-breaking change and runs our check ag
 On success the change is stored as /verif/seeded/<PROP>-<name>/ (patch.diff, demo, meta.json)."""
 import sys, os, json, subprocess, shutil, re, time
 V = os.path.dirname(os.path.dirname(os.path.abspath(__file__)))
-WT = "/tmp/seedcheck-wt"
+WT = os.environ.get("SEEDCHECK_WT", "/tmp/seedcheck-wt")
 GO = "/root/go/pkg/mod/golang.org/toolchain@v0.0.1-go1.25.0.linux-amd64/bin/go"
 env = dict(os.environ, GO=GO, GOTOOLCHAIN="local", GOFLAGS="-mod=mod", GOPROXY="off", GOSUMDB="off")
 
